@@ -24,8 +24,11 @@
     (C) only under the guard "the last 8 bytes of the torn file decode to more than
     size-8" ([C26_torn_append_repaired_partial]) — without the guard (C) is FALSE for
     the code as written: [C26_torn_append_refuted] (confirmed on the real code, see
-    findings.d/C26.json).  [C26_advance_on_empty_refuted] refutes (A) for histories
-    that call Queue.Advance on an empty queue (also confirmed on the real code).
+    findings.d/C26.json).  Histories that call Queue.Advance on an empty queue used to
+    refute (A) (finding dq-advance-on-empty-corrupts-head, fixed in /repo by commit
+    a852c65657); for the repaired code the positive statements
+    [C26_advance_on_empty_unchanged] and [C26_advance_on_empty_then_append_delivered]
+    are proved and the former witness is part of [C26_nonvacuous].
     "_partial" = the statement is about one segment; the composition over several
     segments (roll-over, trimHead, loadSegments, queueTotalSize) is mirrored by the
     executable model and tied to the real code by differential execution only. *)
@@ -131,21 +134,27 @@ Proof.
 Qed.
 Print Assumptions C26_torn_append_refuted.
 
-(** (A) refuted for histories with Queue.Advance on an empty queue: Advance returns nil,
-    the following Append is acknowledged, and draining delivers nothing (one
-    "dropped bad disk queue segment" error). *)
-Theorem C26_advance_on_empty_refuted :
-  exists b, 0 < len b /\
-    match q_open 1024 64 0 [] with
-    | (Some q, _) =>
-        let r := q_append (q_advance q) b in
-        snd r = 0 /\ q_drain drain_fuel (fst r) = ([], 1, 3)
-    | _ => False
-    end.
-Proof.
-  exists [7;7;7;7;7;7;7;7;7;7]. split; [reflexivity|]. vm_compute. split; reflexivity.
-Qed.
-Print Assumptions C26_advance_on_empty_refuted.
+(** (A) Queue.Advance with nothing pending (repaired code, commit a852c65657): on a queue
+    whose only segment is fully consumed ([spos >= size-8]) and not full, Advance
+    leaves the entire queue state unchanged — every byte, position and counter. *)
+Theorem C26_advance_on_empty_unchanged :
+  forall q s, qsegs q = [s] -> spos s >= ssize s - 8 -> ssize s < smax s -> q_advance q = q.
+Proof. exact q_advance_empty_noop. Qed.
+Print Assumptions C26_advance_on_empty_unchanged.
+
+(** ... and an Append acknowledged after such an Advance is stored right behind the
+    consumed entries [l1] and is exactly what the scanner delivers next (for ALL [l1], [b]). *)
+Theorem C26_advance_on_empty_then_append_delivered :
+  forall q l1 m b,
+    qsegs q = [rep l1 [] m] -> ssize (rep l1 [] m) < m ->
+    qtotal q + len b <= qmaxsize q -> 0 < len b < two63 ->
+    let m' := if len b >? m then len b else m in
+    let r := q_append (q_advance q) b in
+    snd r = 0 /\ qsegs (fst r) = [rep l1 [b] m'] /\
+    scan_n 2 (qhead (fst r)) (spos (qhead (fst r))) = ([b], len (recs l1) + len (recs [b]), SEof).
+Proof. exact advance_empty_then_append. Qed.
+Print Assumptions C26_advance_on_empty_then_append_delivered.
+
 
 (** Non-vacuity: a concrete segment with one advanced and two pending entries; the
     guard of the repaired theorem holds for a torn append at k = 12, and a complete
@@ -155,6 +164,11 @@ Example C26_nonvacuous :
   (let img := torn_image (sd (rep [] [w_A; w_B] 64)) w_X 12 in
    decn (drop (len img - 8) img) >? len img - 8) = true /\
   scan_n 5 (rep [w_A] [w_B; w_X] 64) (spos (rep [w_A] [w_B; w_X] 64)) = ([w_B; w_X], 56, SEof) /\
+  match q_open 1024 64 0 [] with      (* the former advance-on-empty witness now delivers *)
+  | (Some q, _) => q_advance q = q /\
+      q_drain drain_fuel (fst (q_append (q_advance q) [7;7;7;7;7;7;7;7;7;7])) = ([[7;7;7;7;7;7;7;7;7;7]], 0, 3)
+  | _ => False
+  end /\
   match q_open 1024 24 0 [] with
   | (Some q, _) =>
      let q1 := fst (q_append (fst (q_append (fst (q_append q w_A)) w_B)) w_X) in
@@ -169,5 +183,6 @@ Proof.
   split; [repeat constructor; unfold okE, len; simpl; lia|].
   split; [vm_compute; reflexivity|].
   split; [vm_compute; reflexivity|].
+  split; [vm_compute; split; reflexivity|].
   vm_compute. split; reflexivity.
 Qed.
